@@ -86,7 +86,8 @@ func (q *SyncQueue) Close() {
 	q.lock.Lock()
 	if !q.closed {
 		q.closed = true
-		q.popable.Signal()
+		// wake every blocked Pop: all of them must observe the close
+		q.popable.Broadcast()
 	}
 	q.lock.Unlock()
 }
